@@ -236,6 +236,151 @@ fn lemma_popcount_extremes() {
     }
 }
 
+// ---------------------------------------------------------------------------------------------
+// Interference (thread-modular rely/guarantee, DESIGN.md §1.2): other threads run between
+// every two atomic accesses of the call under test.
+//   rely:       nobody clears a bit it does not own -> bits in MINE stay set
+//   guarantee:  (O2) every bit my RMWs clear is in MINE (or in the block handed to me for a free)
+//   results:    (O1) Ok(block) => block is a subset of MINE and all of its bits are set
+//               (O3) Err => MINE is empty
+// O2 for every operation discharges the rely for every other thread; O1 gives disjointness of
+// held blocks at every instant, for any number of threads.
+// ---------------------------------------------------------------------------------------------
+static mut BF: *const Bitfield = core::ptr::null();
+/// Bits this call owns (set by its own successful RMWs, or handed in by the caller for a free).
+static mut MINE: [u64; ROWS] = [0; ROWS];
+/// Set when one of my RMWs cleared a bit that was not mine.
+static mut CLEARED_FOREIGN: bool = false;
+static mut ENV_STEPS: usize = 0;
+
+/// One environment step, taken before each of my atomic accesses: the word I am about to access
+/// may have been changed arbitrarily by other threads, except that bits I own stay set.
+/// (The rely is per word and I observe memory only through my accesses, so changing exactly the
+/// accessed word right before each access covers every behaviour of the other threads.)
+fn bf_env(addr: *const u8, _size: usize) {
+    unsafe {
+        let b = &*BF;
+        let off = (addr as usize).wrapping_sub(b.data.as_ptr() as usize);
+        if off < ROWS * 8 && kani::any() {
+            let r = off / 8;
+            let v: u64 = kani::any();
+            b.data[r].0.store(v | MINE[r], core::sync::atomic::Ordering::Relaxed);
+            ENV_STEPS += 1;
+        }
+    }
+}
+/// Ghost update for my own successful writes (any access width).
+fn bf_on_write(addr: *const u8, size: usize, old: u64, new: u64) {
+    unsafe {
+        let base = (*BF).data.as_ptr() as usize;
+        let off = (addr as usize).wrapping_sub(base);
+        if off >= ROWS * 8 {
+            return;
+        }
+        let r = off / 8;
+        let sh = (off % 8) * 8;
+        let (old, new) = if size >= 8 { (old, new) } else { ((old & ((1u64 << (size * 8)) - 1)) << sh, (new & ((1u64 << (size * 8)) - 1)) << sh) };
+        let set = new & !old;
+        let cleared = old & !new;
+        if cleared & !MINE[r] != 0 {
+            CLEARED_FOREIGN = true;
+        }
+        MINE[r] = (MINE[r] | set) & !cleared;
+    }
+}
+fn bf_interference(b: &Bitfield, freeze: bool) {
+    unsafe {
+        BF = b;
+        MINE = [0; ROWS];
+        CLEARED_FOREIGN = false;
+        ENV_STEPS = 0;
+        ENV = Some(bf_env);
+        ON_WRITE = Some(bf_on_write);
+        FREEZE_AT = if freeze { kani::any() } else { usize::MAX };
+    }
+    install(Mode::Interference);
+}
+fn mine() -> [u64; ROWS] {
+    unsafe { MINE }
+}
+fn mine_is_block(off: usize, order: usize) -> bool {
+    let m = mine();
+    let mut ok = true;
+    for r in 0..ROWS {
+        if m[r] != block_mask(r, off, order) {
+            ok = false;
+        }
+    }
+    ok
+}
+fn mine_empty() -> bool {
+    same(&mine(), &[0; ROWS])
+}
+
+/// Untargeted allocation inside one bitfield under interference.
+fn int_set_first_zeros_body(order: usize, freeze: bool) {
+    let b = any_bitfield();
+    let start: usize = kani::any();
+    kani::assume(start < (1 << 34));
+    bf_interference(&b, freeze);
+    let r = b.set_first_zeros(RowId(start), order);
+    set_mode(Mode::Off);
+    let now = rows_of(&b);
+    vcover!("C01", r.is_ok() && unsafe { ENV_STEPS } > 0, "allocation succeeds although other threads interfered");
+    vcover!("C01", r.is_err() && unsafe { ENV_STEPS } > 0, "allocation fails under interference");
+    vassert!("C01", !unsafe { CLEARED_FOREIGN }, "(O2) the call never clears a bit it does not own");
+    match r {
+        Ok(f) => {
+            vassert!("C01", f.0 < Bitfield::LEN && f.0 % (1 << order) == 0, "granted block is aligned and inside the bitfield");
+            vassert!("C01", mine_is_block(f.0, order), "(O1) the granted block is exactly what this call marked itself (no other thread can hold any part of it)");
+            vassert!("C01", block_all(&now, f.0, order, true), "(O1) every frame of the granted block is marked allocated");
+        }
+        Err(_) => {
+            vassert!("C01", mine_empty(), "(O3) a failed allocation keeps nothing marked");
+        }
+    }
+    if freeze {
+        vassert!("C21", unsafe { STEPS_FROZEN } <= 4 * ROWS + 4, "the call finishes within a bounded number of steps once it runs alone");
+    }
+}
+
+/// Targeted allocation (toggle 0 -> 1) and free of a held block (toggle 1 -> 0) under interference.
+fn int_toggle_body(order: usize, free: bool, freeze: bool) {
+    let b = any_bitfield();
+    let (frame, off) = any_aligned_frame(order);
+    bf_interference(&b, freeze);
+    if free {
+        // the caller holds the block: its bits are set and owned
+        unsafe {
+            for r in 0..ROWS {
+                MINE[r] = block_mask(r, off, order);
+                let v = b.data[r].0.load(core::sync::atomic::Ordering::Relaxed);
+                b.data[r].0.store(v | MINE[r], core::sync::atomic::Ordering::Relaxed);
+            }
+        }
+    }
+    let r = b.toggle(frame, order, free);
+    set_mode(Mode::Off);
+    let now = rows_of(&b);
+    vcover!("C01", r.is_ok() && unsafe { ENV_STEPS } > 0, "toggle succeeds although other threads interfered");
+    vassert!("C01", !unsafe { CLEARED_FOREIGN }, "(O2) the call never clears a bit it does not own");
+    if free {
+        vassert!("C03", r.is_ok(), "a free of a held block always succeeds");
+        vassert!("C01", mine_empty(), "after the free the call owns nothing");
+    } else {
+        match r {
+            Ok(()) => {
+                vassert!("C01", mine_is_block(off, order), "(O1) the granted block is exactly what this call marked itself");
+                vassert!("C01", block_all(&now, off, order, true), "(O1) every frame of the granted block is marked allocated");
+            }
+            Err(_) => vassert!("C01", mine_empty(), "(O3) a failed allocation keeps nothing marked"),
+        }
+    }
+    if freeze {
+        vassert!("C21", unsafe { STEPS_FROZEN } <= 4 * ROWS + 4, "the call finishes within a bounded number of steps once it runs alone");
+    }
+}
+
 // @h props=C23 tier=quick geom=4 panics=C23 mem=C18
 #[kani::proof]
 #[kani::unwind(66)]
@@ -518,4 +663,225 @@ fn lemma_popcount_block_o8() {
 #[kani::unwind(34)]
 fn lemma_popcount_block_o9() {
     lemma_popcount_block_body(9)
+}
+
+// @h props=C01,C03 tier=quick geom=4 panics=C03 mem=C18 unwind=C21
+#[kani::proof]
+#[kani::unwind(10)]
+fn bi_set_first_zeros_o0() {
+    int_set_first_zeros_body(0, false)
+}
+#[kani::proof]
+#[kani::unwind(10)]
+fn bi_set_first_zeros_o3() {
+    int_set_first_zeros_body(3, false)
+}
+#[kani::proof]
+#[kani::unwind(10)]
+fn bi_set_first_zeros_o6() {
+    int_set_first_zeros_body(6, false)
+}
+#[kani::proof]
+#[kani::unwind(10)]
+fn bi_set_first_zeros_o7() {
+    int_set_first_zeros_body(7, false)
+}
+#[kani::proof]
+#[kani::unwind(10)]
+fn bi_set_first_zeros_o8() {
+    int_set_first_zeros_body(8, false)
+}
+
+// @h props=C01,C03 tier=thorough geom=4 panics=C03 mem=C18 unwind=C21
+#[kani::proof]
+#[kani::unwind(10)]
+fn bi_set_first_zeros_o1() {
+    int_set_first_zeros_body(1, false)
+}
+#[kani::proof]
+#[kani::unwind(10)]
+fn bi_set_first_zeros_o2() {
+    int_set_first_zeros_body(2, false)
+}
+#[kani::proof]
+#[kani::unwind(10)]
+fn bi_set_first_zeros_o4() {
+    int_set_first_zeros_body(4, false)
+}
+#[kani::proof]
+#[kani::unwind(10)]
+fn bi_set_first_zeros_o5() {
+    int_set_first_zeros_body(5, false)
+}
+#[kani::proof]
+#[kani::unwind(10)]
+fn bi_set_first_zeros_o9() {
+    int_set_first_zeros_body(9, false)
+}
+
+// @h props=C01,C03 tier=quick geom=4 panics=C03 mem=C18 unwind=C21
+#[kani::proof]
+#[kani::unwind(10)]
+fn bi_toggle_alloc_o0() {
+    int_toggle_body(0, false, false)
+}
+#[kani::proof]
+#[kani::unwind(10)]
+fn bi_toggle_alloc_o1() {
+    int_toggle_body(1, false, false)
+}
+#[kani::proof]
+#[kani::unwind(10)]
+fn bi_toggle_alloc_o2() {
+    int_toggle_body(2, false, false)
+}
+#[kani::proof]
+#[kani::unwind(10)]
+fn bi_toggle_alloc_o3() {
+    int_toggle_body(3, false, false)
+}
+#[kani::proof]
+#[kani::unwind(10)]
+fn bi_toggle_alloc_o4() {
+    int_toggle_body(4, false, false)
+}
+#[kani::proof]
+#[kani::unwind(10)]
+fn bi_toggle_alloc_o5() {
+    int_toggle_body(5, false, false)
+}
+#[kani::proof]
+#[kani::unwind(10)]
+fn bi_toggle_alloc_o6() {
+    int_toggle_body(6, false, false)
+}
+#[kani::proof]
+#[kani::unwind(10)]
+fn bi_toggle_alloc_o7() {
+    int_toggle_body(7, false, false)
+}
+#[kani::proof]
+#[kani::unwind(10)]
+fn bi_toggle_alloc_o8() {
+    int_toggle_body(8, false, false)
+}
+#[kani::proof]
+#[kani::unwind(10)]
+fn bi_toggle_alloc_o9() {
+    int_toggle_body(9, false, false)
+}
+
+// @h props=C01,C03 tier=quick geom=4 panics=C03 mem=C18 unwind=C21
+#[kani::proof]
+#[kani::unwind(10)]
+fn bi_toggle_free_o0() {
+    int_toggle_body(0, true, false)
+}
+#[kani::proof]
+#[kani::unwind(10)]
+fn bi_toggle_free_o1() {
+    int_toggle_body(1, true, false)
+}
+#[kani::proof]
+#[kani::unwind(10)]
+fn bi_toggle_free_o2() {
+    int_toggle_body(2, true, false)
+}
+#[kani::proof]
+#[kani::unwind(10)]
+fn bi_toggle_free_o3() {
+    int_toggle_body(3, true, false)
+}
+#[kani::proof]
+#[kani::unwind(10)]
+fn bi_toggle_free_o4() {
+    int_toggle_body(4, true, false)
+}
+#[kani::proof]
+#[kani::unwind(10)]
+fn bi_toggle_free_o5() {
+    int_toggle_body(5, true, false)
+}
+#[kani::proof]
+#[kani::unwind(10)]
+fn bi_toggle_free_o6() {
+    int_toggle_body(6, true, false)
+}
+#[kani::proof]
+#[kani::unwind(10)]
+fn bi_toggle_free_o7() {
+    int_toggle_body(7, true, false)
+}
+#[kani::proof]
+#[kani::unwind(10)]
+fn bi_toggle_free_o8() {
+    int_toggle_body(8, true, false)
+}
+#[kani::proof]
+#[kani::unwind(10)]
+fn bi_toggle_free_o9() {
+    int_toggle_body(9, true, false)
+}
+
+// @h props=C21 tier=quick geom=4 panics=C03 mem=C18 unwind=C21
+#[kani::proof]
+#[kani::unwind(10)]
+fn bf_set_first_zeros_o3() {
+    int_set_first_zeros_body(3, true)
+}
+#[kani::proof]
+#[kani::unwind(10)]
+fn bf_set_first_zeros_o7() {
+    int_set_first_zeros_body(7, true)
+}
+
+// @h props=C21 tier=thorough geom=4 panics=C03 mem=C18 unwind=C21
+#[kani::proof]
+#[kani::unwind(10)]
+fn bf_set_first_zeros_o0() {
+    int_set_first_zeros_body(0, true)
+}
+#[kani::proof]
+#[kani::unwind(10)]
+fn bf_set_first_zeros_o6() {
+    int_set_first_zeros_body(6, true)
+}
+#[kani::proof]
+#[kani::unwind(10)]
+fn bf_set_first_zeros_o8() {
+    int_set_first_zeros_body(8, true)
+}
+
+// @h props=C21 tier=quick geom=4 panics=C03 mem=C18 unwind=C21
+#[kani::proof]
+#[kani::unwind(10)]
+fn bf_toggle_alloc_o0() {
+    int_toggle_body(0, false, true)
+}
+#[kani::proof]
+#[kani::unwind(10)]
+fn bf_toggle_alloc_o3() {
+    int_toggle_body(3, false, true)
+}
+#[kani::proof]
+#[kani::unwind(10)]
+fn bf_toggle_alloc_o7() {
+    int_toggle_body(7, false, true)
+}
+
+// @h props=C21 tier=quick geom=4 panics=C03 mem=C18 unwind=C21
+#[kani::proof]
+#[kani::unwind(10)]
+fn bf_toggle_free_o0() {
+    int_toggle_body(0, true, true)
+}
+#[kani::proof]
+#[kani::unwind(10)]
+fn bf_toggle_free_o3() {
+    int_toggle_body(3, true, true)
+}
+#[kani::proof]
+#[kani::unwind(10)]
+fn bf_toggle_free_o7() {
+    int_toggle_body(7, true, true)
 }
